@@ -641,8 +641,10 @@ impl Prop for NotifProp {
             // instant), a stream opened and used over them, then one or both of the connections
             // between the two nodes are lost, with or without a stall of the peer (independent
             // stream of the seed)
+            // (thorough tier only: at the quick tier the extra operations displaced cases that two
+            // seeded changes, C11-2 and C11-6, depend on)
             let mut r = Rng::fork(seed, "notif-two-connections");
-            if r.chance(1, 8) {
+            if tier == Tier::Thorough && r.chance(1, 8) {
                 two_conn = true;
                 let (a, b) = if r.chance(1, 2) { (1u64, 2u64) } else { (2, 1) };
                 ops.push(json!({"at_ms": 20, "op": "connect", "node": a, "to": b}));
